@@ -15,6 +15,8 @@ func init() {
 		Run:   runC14,
 		Trusted: []string{"route.Parse is the parser NewTable uses (same function)", "hashicorp/consul/api field contents are arbitrary strings"},
 		Mutants: []mutant{
+			{Name: "options expanded with the environment", File: "registry/consul/routecmd.go", Old: "\ts = strings.TrimSpace(s[len(prefix):])\n", New: "\ts = strings.TrimSpace(expand(s[len(prefix):]))\n", Expect: "C14.E1"},
+
 			{Name: "validator bypassed", File: "registry/consul/routecmd.go", Old: "\t\t\tif !validRouteAdd(cfg) {", New: "\t\t\tif false && !validRouteAdd(cfg) {", Expect: "C14.T1"},
 			{Name: "validator accepts several commands", File: "registry/consul/routecmd.go", Old: "if err != nil || len(defs) != 1 || defs[0].Cmd != route.RouteAddCmd {", New: "if err != nil || len(defs) < 1 || defs[0].Cmd != route.RouteAddCmd {", Expect: "C14.T1"},
 			{Name: "validator ignores the parse error", File: "registry/consul/routecmd.go", Old: "if err != nil || len(defs) != 1 || defs[0].Cmd != route.RouteAddCmd {", New: "if len(defs) != 1 || defs[0].Cmd != route.RouteAddCmd {", Expect: "C14.T1"},
@@ -39,6 +41,7 @@ func runC14(c *Ctx) {
 	runC14T1(c, build)
 	runQuotingFor(c, "C14.Q1", build)
 	runC14I1(c)
+	runC14E1(c)
 	tmp := &Ctx{Dir: c.Dir, Pkgs: c.Pkgs, Fset: c.Fset, Prog: c.Prog, spkgs: c.spkgs, ppkgs: c.ppkgs, AllFns: c.AllFns, cg: c.cg}
 	runFiniteWeight(tmp, "C14.P4")
 	c.Obs = append(c.Obs, tmp.Obs...)
